@@ -16,16 +16,25 @@ Definition vcf_gt := option (list (option nat)).
 Inductive gres := GCalled (g : nat) | GMissing | GMultiallelic | GPloidyErr.
 
 (* From<Option<VcfGenotype>> for genotype::Result (repaired: an allele index >= 2 is
-   multiallelic even when the indices sum to <= 2) *)
+   multiallelic even when the indices sum to <= 2; a lone missing allele - the way BCF carries a GT field
+   that is the missing value - is a missing genotype, as the absent field of the VCF reader is) *)
 Definition classify (g : vcf_gt) : gres :=
   match g with
   | None => GMissing
+  | Some [None] => GMissing
   | Some [a; b] =>
       match a, b with
       | Some a, Some b => if (a <=? 1) && (b <=? 1) then GCalled (a + b) else GMultiallelic
       | _, _ => GMissing
       end
   | Some _ => GPloidyErr
+  end.
+
+(* the classification before that last repair (F16), kept to state what was wrong *)
+Definition classify_v0 (g : vcf_gt) : gres :=
+  match g with
+  | Some [None] => GPloidyErr
+  | _ => classify g
   end.
 
 (* ------------------------------------------------------------------ names, maps *)
